@@ -50,6 +50,8 @@ pub(crate) mod verif_mutex {
         let mut snap = [0u32; K]; // wake count of that waker's cell at the end of the latest poll
         let mut stamp = [0u32; K]; // arrival (first Pending poll)
         let mut swapped = [false; K];
+        let mut dead = [false; K]; // slot's future was dropped and not re-created yet
+        let mut dsn = [[0u32; 2]; K]; // wake counts of its two wakers just before the drop
         let mut clock = 0u32;
         let mut bits = 0u32;
 
@@ -66,6 +68,7 @@ pub(crate) mod verif_mutex {
                 if !alive[i] {
                     *f = ManuallyDrop::new(m.lock());
                     alive[i] = true;
+                    dead[i] = false;
                     oracle!(p, P17, !f.is_terminated(), "C17 mutex: fresh lock future reports terminated");
                 }
                 let cell = match (i, w) {
@@ -123,6 +126,8 @@ pub(crate) mod verif_mutex {
                     };
                     pending[i] && cell.n() > snap[i]
                 };
+                dsn[i] = match i { 0 => [c0a.n(), c0b.n()], 1 => [c1a.n(), c1b.n()], _ => [c2a.n(), c2b.n()] };
+                dead[i] = true;
                 unsafe { ManuallyDrop::drop(f) };
                 alive[i] = false;
                 pending[i] = false;
@@ -169,6 +174,12 @@ pub(crate) mod verif_mutex {
                 if (pending[0] as u8 + pending[1] as u8 + pending[2] as u8) >= 2 && op == 9 {
                     bits |= W_TWO_PENDING_WOKEN;
                 }
+            }
+            if (p & P01) != 0 {
+                // C01: a dropped future is in no wait queue any more, so its task is never woken again
+                if dead[0] { assert!(c0a.n() == dsn[0][0] && c0b.n() == dsn[0][1], "C01 mutex: the task of a dropped future was woken (dangling waiter)"); }
+                if dead[1] { assert!(c1a.n() == dsn[1][0] && c1b.n() == dsn[1][1], "C01 mutex: the task of a dropped future was woken (dangling waiter)"); }
+                if dead[2] { assert!(c2a.n() == dsn[2][0] && c2b.n() == dsn[2][1], "C01 mutex: the task of a dropped future was woken (dangling waiter)"); }
             }
             if (p & P17) != 0 {
                 if alive[0] { assert!(f0.is_terminated() == done[0], "C17 mutex: is_terminated() differs from 'completed'"); }
